@@ -450,7 +450,7 @@ def main(tier, replay_obj=None):
     if replay_obj is not None:
         return replay(replay_obj)
     env.silence_unraisable()
-    depth = 6 if tier == "quick" else 8
+    depth = 6 if tier == "quick" else 7
     res = runner.Result(PID, "model_checking", tier,
                         "A: explicit-state BFS (depth %d) over register/unregister/query/clock-advance histories (2 hosts x 2 ports x 2 alias "
                         "sets, 4 query names, advances of T/2 and T+1) replayed on the real UDPRegistryServer loop and compared step by step "
